@@ -330,6 +330,16 @@ func (x *Exec) findLocal(st *State, name string) *types.Var {
 			}
 		}
 	}
+	// named results of the function under contract
+	if len(x.frames) > 0 {
+		for _, v := range x.frames[0].results {
+			if v != nil && v.Name() == name {
+				if _, ok := st.vars[v]; ok {
+					return v
+				}
+			}
+		}
+	}
 	return nil
 }
 
@@ -703,6 +713,24 @@ func (e *specEnv) evalCall(s *SpecExpr) (Term, types.Type) {
 			mh := x.mapHeap(mm)
 			inner := sel(x.heapGet(e.st, mh.has, arraySort(SInt, arraySort(mh.ks, SBool))), m)
 			return ite(eq(m, intLit(0)), x.constArray(arraySort(mh.ks, SBool), tFalse), inner), keysetType
+		case "seqlen", "seqat":
+			// the abstract sequence an external iterator's ForEach visits: seqlen(it), seqat(it, i)
+			it, itT := e.eval(args[0])
+			if fn.Name == "seqlen" {
+				return x.seqLen(it), types.Typ[types.Int]
+			}
+			obj, _, _ := types.LookupFieldOrMethod(itT, true, nil, "ForEach")
+			fe, _ := obj.(*types.Func)
+			if fe == nil {
+				e.fail("seqat(): the iterator type has no ForEach method")
+			}
+			fsig := fe.Type().(*types.Signature)
+			cb, ok := fsig.Params().At(0).Type().Underlying().(*types.Signature)
+			if !ok || cb.Params().Len() != 1 {
+				e.fail("seqat(): unexpected ForEach callback type")
+			}
+			i, _ := e.eval(args[1])
+			return x.seqAt(it, i, cb.Params().At(0).Type()), cb.Params().At(0).Type()
 		case "has":
 			d, _ := e.eval(args[0])
 			k, _ := e.eval(args[1])
